@@ -67,9 +67,17 @@ def extra() -> List[List[dict]]:
     out.append([S("sub", 26), S("sub", 34)] + [A("good", 26, i) for i in range(1, 8)] + [A("good", 34, 8), S("unsub", 26), R("tiny"), R("tiny"), R("tiny")])
     out.append([S("suball")] + [A("good", 26, 1), A("unknown", 26, 2), A("good", 34, 3), S("unsuball"), S("sub", 34), R("pos"), R("pos"), R("pos")])
     # connection loss at the start, inside and at the end of a frame
-    for kind in ("fin", "finmid", "rst"):
+    for kind in ("fin", "finmid", "finbody", "rst"):
         out.append([S("sub", 26), A("good", 26, 1), A("good", 26, 2), {"a": "Cut", "kind": kind}, R("pos"), R("pos"), R("pos"), R("zero")])
         out.append([S("sub", 26), {"a": "Cut", "kind": kind}, R("block"), R("pos")])
+    # the last frame torn after its header, for every class whose header already tells (or does not tell) that it cannot be decoded
+    for cls in ("good", "unknown", "wrongsize", "wrongboth", "wrongver", "zerover"):
+        for sync in (False, True):
+            for t in (26, 34):
+                out.append([S("sub", 26), S("sub", 34), A("good", 26, 1), A(cls, t, 2), {"a": "Cut", "kind": "finbody"},
+                            R("pos", False, sync), R("pos", False, sync), R("pos", False, sync), R("zero", False, sync)])
+                out.append([S("sub", 26), S("sub", 34), A("good", 26, 1), A("good", 26, 2), A(cls, t, 3), {"a": "Cut", "kind": "finbody"},
+                            R("pos", False, sync), R("pos", False, sync), R("pos", False, sync), R("zero", False, sync)])
     return out
 
 
